@@ -193,3 +193,38 @@ Definition pred_wf (job : job_inputs) (pm : string * string) : bool :=
   match lookup (fst pm) job with Some (KPlain, _) => true | _ => false end.
 Definition rules_wf (rules : list rule) (job : job_inputs) : bool :=
   forallb (fun r => forallb (pred_wf job) (r_preds r)) rules.
+
+(* ---- a filter OBJECT evaluated on a sequence of jobs ----
+   What a MatchingBindingFilter instance holds between calls: its rules and _evaluated_steps (the step
+   names for which the two "typo" warnings were already logged).  get_targets never assigns
+   self.matching_rules; it adds the job's step name to _evaluated_steps, which only gates logging. *)
+Record fstate := { f_rules : list rule; f_seen : list string }.
+
+Definition filter_call (st : fstate) (step : string) (job : job_inputs) (ts : list target)
+  : fstate * res (list target) :=
+  ({| f_rules := f_rules st;
+      f_seen := if existsb (String.eqb step) (f_seen st) then f_seen st else step :: f_seen st |},
+   get_targets (f_rules st) job ts).
+
+(* schedule(): for f in filters: targets = await f.get_targets(job, targets) — on the cached objects;
+   a filter that raises ends the call, the later filter objects are not touched *)
+Fixpoint chain_call (sts : list fstate) (step : string) (job : job_inputs) (ts : list target)
+  : list fstate * res (list target) :=
+  match sts with
+  | [] => ([], Ok ts)
+  | st :: sts' =>
+      let (st', r) := filter_call st step job ts in
+      match r with
+      | Err e => (st' :: sts', Err e)
+      | Ok l => let (sts'', r') := chain_call sts' step job l in (st' :: sts'', r')
+      end
+  end.
+
+(* one call = (step name of the job, its inputs, the targets of its binding) *)
+Record call := { c_step : string; c_inputs : job_inputs; c_ts : list target }.
+
+Fixpoint run_calls (sts : list fstate) (cs : list call) : list (res (list target)) :=
+  match cs with
+  | [] => []
+  | c :: cs' => let (sts', r) := chain_call sts (c_step c) (c_inputs c) (c_ts c) in r :: run_calls sts' cs'
+  end.
